@@ -181,7 +181,24 @@ def scan(repo):
                     if fname in ORDER_EXPOSING_CALLS:
                         for a in n.args:
                             if m.setlike(a, set()):
-                                set_sites.append("%s:<module>|call:%s:ORDER-EXPOSED|%s" % (m.name, fname, seg(m.src, st)))
+                                # who reads the hash-ordered table: a new reader has to be reviewed like the site itself
+                                base = None
+                                if isinstance(st, ast.Assign) and st.targets:
+                                    t = st.targets[0]
+                                    while isinstance(t, (ast.Subscript, ast.Attribute)):
+                                        t = t.value
+                                    base = t.id if isinstance(t, ast.Name) else None
+                                readers = set()
+                                if base:
+                                    def walk_fns(node, prefix):
+                                        for ch in ast.iter_child_nodes(node):
+                                            if isinstance(ch, (ast.FunctionDef, ast.AsyncFunctionDef, ast.ClassDef)):
+                                                q = (prefix + "." if prefix else "") + ch.name
+                                                if not isinstance(ch, ast.ClassDef) and any(isinstance(x, ast.Name) and x.id == base for x in ast.walk(ch)):
+                                                    readers.add(q)
+                                                walk_fns(ch, q)
+                                    walk_fns(m.tree, "")
+                                set_sites.append("%s:<module>|call:%s:ORDER-EXPOSED|%s|readers=%s" % (m.name, fname, seg(m.src, st), ",".join(sorted(readers))))
                 if isinstance(n, (ast.ListComp, ast.DictComp, ast.GeneratorExp)):
                     for g in n.generators:
                         if m.setlike(g.iter, set()):
